@@ -267,6 +267,9 @@ func c12Exhaustive() []any {
 		{hk("ha", 0, all), hk("hb", 0, all, "hook-succeeded"), hk("hc", 0, all, "hook-failed"), hk("hd", 0, all, "hook-succeeded", "hook-failed")},
 		{hk("ha", 1, []string{"pre-install", "pre-install", "pre-upgrade", "post-upgrade", "pre-rollback", "post-delete"}, "before-hook-creation", "hook-succeeded"),
 			hk("hb", -1, []string{"post-install", "pre-upgrade", "pre-upgrade", "post-rollback", "pre-delete"}, "hook-failed", "before-hook-creation")},
+		// weights and policies as annotation strings: decimal order hd(0) hc(8) hb(9) ha(10)
+		{rawHk("ha", strings.Join(all, ","), "w", "010", "d", "Hook-Succeeded"), rawHk("hb", strings.Join(all, " ,"), "w", "9", "d", "hook-failed"),
+			rawHk("hc", strings.ToUpper(strings.Join(all, ",")), "w", "08"), rawHk("hd", strings.Join(all, ", "), "w", "0x10", "d", "before-hook-creation, hook-succeeded")},
 	}
 	for _, hs := range sets {
 		var names []string
